@@ -7,7 +7,7 @@ BASE_WEIGHTS = {
     'CreateTrial': 4, 'SuggestTrials': 8, 'GetTrial': 1, 'ListTrials': 1,
     'AddTrialMeasurement': 4, 'CompleteTrial': 7, 'StopTrial': 3, 'DeleteTrial': 2,
     'CheckES': 2, 'UpdateMetadata': 4, 'ListOptimalTrials': 2, 'GetOperation': 1,
-    'Advance': 1, 'ClockFault': 1,
+    'Advance': 1, 'ClockFault': 1, 'M:es-recycle': 1, 'M:delete-recreate': 1, 'M:pool': 1,
 }
 
 TRIAL_PREFS = ['active', 'active', 'mutable', 'any', 'any', 'completed', 'requested',
@@ -105,9 +105,36 @@ def gen_ops(rng, n, profile, weights):
   out = []
   # Always start by creating a study so that the history does something.
   out.append(['CreateStudy', {'o': 0, 'd': 0, 'state': 'ACTIVE'}])
-  for _ in range(n - 1):
-    out.append(gen_op(rng, rng.choices(kinds, ws)[0], profile))
+  while len(out) < n:
+    kind = rng.choices(kinds, ws)[0]
+    if kind.startswith('M:'):
+      out.extend(gen_macro(rng, kind, profile))
+    else:
+      out.append(gen_op(rng, kind, profile))
   return out
+
+
+def gen_macro(rng, kind, p):
+  """Short op sequences that random choice rarely lines up."""
+  if kind == 'M:es-recycle':
+    ss = {'o': 0, 'd': 0}
+    t = {'pref': 'active', 'i': rng.randrange(4)}
+    return [['CheckES', {'study': ss, 'trial': t}],
+            ['Advance', {'dt': rng.choice([0.05, 0.2, 30.0, 61.0, 61.0, 4000.0])}],
+            ['CheckES', {'study': ss, 'trial': t}]]
+  if kind == 'M:delete-recreate':
+    o, d = rng.randrange(p.get('n_owners', 2)), rng.randrange(p.get('n_studies', 3))
+    w = rng.randrange(p.get('workers', 2))
+    return [['SuggestTrials', {'study': {'o': o, 'd': d}, 'n': 1, 'worker': w}],
+            ['DeleteStudy', {'study': {'o': o, 'd': d}}],
+            ['CreateStudy', {'o': o, 'd': d, 'state': 'ACTIVE'}],
+            ['SuggestTrials', {'study': {'o': o, 'd': d}, 'n': rng.choice([1, 2]), 'worker': w}]]
+  if kind == 'M:pool':
+    ss = {'o': 0, 'd': 0}
+    return [['CreateTrial', {'study': ss, 'x': rng.randrange(100), 'tkind': 'plain'}],
+            ['CreateTrial', {'study': ss, 'x': rng.randrange(100), 'tkind': 'plain'}],
+            ['SuggestTrials', {'study': ss, 'n': rng.choice([1, 2, 3]), 'worker': rng.randrange(p.get('workers', 2))}]]
+  raise ValueError(kind)
 
 
 def simplify_ops(plan, field='ops'):
